@@ -208,7 +208,14 @@ impl Ctx {
 
 fn first_line(s: &str) -> String {
     // numbers are replaced so that one defect yields one reason
-    s.lines().next().unwrap_or("").chars().take(160).map(|c| if c.is_ascii_digit() { '#' } else { c }).collect()
+    let mut out = String::new();
+    for c in s.lines().next().unwrap_or("").chars().take(160) {
+        let c = if c.is_ascii_digit() { '#' } else { c };
+        if !(c == '#' && out.ends_with('#')) {
+            out.push(c);
+        }
+    }
+    out
 }
 
 fn fix_prefix(mut x: Vec<u8>) -> Vec<u8> {
